@@ -230,6 +230,59 @@ def search_mft(res):
                      {"api": "MeanFieldTempo", "bath_eigenvalues": [ea, eb], "difference": err})
 
 
+def search_session(res):
+    """a long-running session that creates, uses and discards baths (parameter scan): a bath
+    created later must get ITS OWN class representatives, also when it lives at the memory address
+    of a discarded one"""
+    import gc
+    import oqupy
+    corr = oqupy.PowerLawSD(alpha=0.3, zeta=1.0, cutoff=5.0, cutoff_type="exponential", temperature=0.2)
+    sx3 = np.array([[0.0, 1.0, 0.0], [1.0, 0.0, 1.0], [0.0, 1.0, 0.0]])
+    system = oqupy.System(0.7 * sx3 + np.diag([0.3, 0.0, -0.2]))
+    rho0 = np.diag([0.0, 1.0, 0.0]).astype(complex)
+    par = oqupy.TempoParameters(dt=0.1, dkmax=None, epsrel=1e-9)
+    # same class counts, different arrangement
+    coup_a, coup_b = np.diag([1.0, 0.0, -1.0]), np.diag([0.0, 1.0, -1.0])
+
+    def states(bath, unique, end):
+        t = oqupy.Tempo(system, bath, par, rho0, 0.0, unique=unique)
+        return np.array(t.compute(end_time=end, progress_type="silent").states)
+
+    seq = ("150 x (Bath(diag(1,0,-1)); Tempo(unique=True).compute(0.1); discard); gc; new "
+           "Bath(diag(0,1,-1)) at a re-used address; unique=True vs unique=False")
+    old = set()
+    keep, tried = [], 0
+    for k in range(3150):
+        try:
+            if k < 150:
+                b = oqupy.Bath(coup_a, corr)
+                states(b, True, 0.1)
+                old.add(id(b))
+                del b
+                if k == 149:
+                    gc.collect()
+                continue
+            b = oqupy.Bath(coup_b, corr)
+            if id(b) not in old:
+                keep.append(b)
+                continue
+            tried += 1
+            err = np.abs(states(b, True, 0.4) - states(b, False, 0.4)).max()
+        except Exception as e:                      # noqa: BLE001 - the real code failing IS the finding
+            res.fail("unique-raises:tempo:bath created after others were discarded",
+                     {"api": "Tempo", "sequence": seq, "at_iteration": k,
+                      "error": "%s: %s" % (type(e).__name__, str(e)[:200])})
+            return
+        if True:
+            if err > 1e-7:
+                res.fail("unique-differs:tempo:bath created after others were discarded",
+                         {"api": "Tempo", "sequence": seq, "difference": err})
+                return
+            if tried >= 3:
+                return
+        keep.append(b)
+
+
 def run(tier, seed, replay):
     res = fw.Result(PID, tier, seed, level="proof")
     rng = random.Random(seed)
@@ -246,4 +299,4 @@ def run(tier, seed, replay):
         correspondence(res, tier, rng)
     except fw.Infra as e:
         res.oblige("correspondence run", False, str(e))
-    return fw.finish(res, lambda r: (search(r), search_mft(r)))
+    return fw.finish(res, lambda r: (search(r), search_mft(r), search_session(r)))
